@@ -232,6 +232,9 @@ def step (w : World) (j : Json) : World × List String :=
   let n := w.get node
   -- the harness makes `Sign` fail during this operation
   let env : Env := if jBool j "signfail" then { env with signFails := true } else env
+  -- … and these nodes' status list endpoints unreachable
+  let downBases := (jNats j "down").filterMap (fun i => bases[i]?)
+  let env : Env := if downBases.isEmpty then env else { env with down := fun b => downBases.contains b }
   match jStr j "op" with
   | "reset" =>
     let dids := (jStrs j "dids").filter (fun d => !hasSub d "unknown")
